@@ -145,6 +145,13 @@ def newEntry (s : State) (loc : Loc) (cands : List Signer) : Entry :=
   let st : Store := if s.cfg.disk then (lookup s.disk loc).getD {} else {}
   { store := st, loaded := st.doc.isSome, chains := cands }
 
+/-- `loadActively` (entry write lock held): refused on a closed entry, else store the locations and load. -/
+def loadActively (s : State) (loc : Loc) (e : Entry) (cands : List Signer) : State × Outcome :=
+  if e.closed && closedEntriesSkipped then (s, .err)
+  else
+    let e3 := { e with store := { e.store with hasLocs := true } }
+    loadCRL (setEntry s loc e3) loc e3 cands
+
 /-- `Repository.AddCRL`. Returns (state, added, outcome). -/
 def addCRL (s : State) (loc : Loc) (cands : List Signer) : State × Bool × Outcome :=
   if s.unsupported.contains loc then (s, false, .err)
@@ -157,8 +164,7 @@ def addCRL (s : State) (loc : Loc) (cands : List Signer) : State × Bool × Outc
         let e := { e1 with store := { e1.store with hasLocs := true } }; (setEntry s1 loc e, e)
       else (s1, e1)
     if s2.cfg.fetch == .actively && !e2.loaded then
-      let e3 := { e2 with store := { e2.store with hasLocs := true } }
-      let (s3, o) := loadCRL (setEntry s2 loc e3) loc e3 cands
+      let (s3, o) := loadActively s2 loc e2 cands
       (s3, added, o)
     else
       -- signature certificate retry after a refresh whose verification failed
@@ -212,7 +218,8 @@ def updateOne (s : State) (loc : Loc) : State :=
   match lookup s.entries loc with
   | none => s
   | some e =>
-    if !e.loaded then (loadCRL s loc e e.chains).1
+    if e.closed && closedEntriesSkipped then s      -- `updateCRL`: nothing to update after shutdown
+    else if !e.loaded then (loadCRL s loc e e.chains).1
     else (updateCrlEntry s loc e none).1
 
 /-- `UpdateCRLs`: every identifier known at the start, in the given order; a failure does not stop the walk. -/
